@@ -5,8 +5,9 @@ import os
 from . import common as C
 
 CLAUSES = {
-    "C08": {"build", "declared", "coverage", "lookup", "stream_sem", "stream"},
-    "C09": {"build", "build_error", "coverage", "lookup", "stream_sem", "stream"},
+    "C08": {"build", "declared", "coverage", "cov_contains", "lookup", "stream_sem", "stream"},
+    "C09": {"build", "build_error", "coverage", "cov_contains", "lookup", "stream_sem", "stream"},
+    "C03": {"cov_contains"},               # C03 over pipeline operations: returned tiles lie inside the advertised coverage
     "C02": {"stream_sem", "stream"},       # C02 over pipeline operations: the stream clauses only
 }
 
